@@ -4,13 +4,19 @@
  * byte 0xAA so that a NUL found inside was written by the callee.
  * muggle_os_curdir is supplied here (the scenario's cwd), as C19 supplies the clock.
  *
- * Strings travel hex-encoded ("-" = empty).  One op per line:
+ * Strings travel hex-encoded ("-" = empty, "~" = a NULL pointer, accepted by the str.c functions only).
+ * One op per line:
  *   npo2 V | swap16 V | swap32 V | swap64 V
  *   swapw V   (V < 2^16)  MUGGLE_ENDIAN_SWAP_16 evaluated WITHOUT a 16-bit store: operand uint16_t/uint64_t/
  *             int/uint32_t consumed as a wider integer, and the nested round trip -> "r16 r64 rint r32 rt rt64"
  *   swapw32 V (V < 2^32)  MUGGLE_ENDIAN_SWAP_32 on a uint64_t operand and its nested round trip -> "r rt"
+ *   swapt N T V  (N = 16|32|64, T = i8|u8|i16|u16|i32|u32|i64|u64, V a 64-bit pattern): the operand is an object
+ *             of type T holding (T)V; MUGGLE_ENDIAN_SWAP_N(operand) consumed as uint64_t, as int64_t, stored in a
+ *             uintN_t, and the nested round trip consumed as uint64_t -> "u s w rt"
  *   toi|tou|tol|toul|toll|toull BASE S     -> "ok V"/"fail" + "libc V END ERANGE"
- *   tof|tod|told S CONSUMED ISINF ERANGE   -> "ok"/"fail"   + "libcf CONSUMED ISINF ERANGE SAMEVALUE"
+ *   tof|tod|told S CONSUMED ISINF ERANGE [ISZERO]  -> "ok"/"fail" + "libcf CONSUMED ISINF ERANGE [ISZERO] SAMEVALUE"
+ *             (the ISZERO column is printed when the op line carries it)
+ *   a parser op with a trailing token "P0" passes pval = NULL
  *   lstrip S | rstrip S | startswith S P | endswith S P | find S SUB A B | count S SUB A B
  *   hexbyte C | hex2b S | b2hex S | isabs P
  *   basename|dirname|normpath SIZE P | join SIZE P1 P2 | abspath SIZE CWD P
@@ -50,6 +56,7 @@ static int hexv(int c)
 static char *dec(const char *tok, size_t *plen, int nul)
 {
 	size_t n = 0;
+	if (strcmp(tok, "~") == 0) { if (plen) *plen = 0; return NULL; }
 	if (strcmp(tok, "-") != 0) n = strlen(tok) / 2;
 	char *p = (char *)malloc(n + (nul ? 1 : 0));
 	for (size_t i = 0; i < n; i++) p[i] = (char)(hexv(tok[2 * i]) * 16 + hexv(tok[2 * i + 1]));
@@ -135,6 +142,29 @@ static void case_line(char *line)
 		uint64_t r = MUGGLE_ENDIAN_SWAP_32(v64);
 		uint64_t rt = MUGGLE_ENDIAN_SWAP_32(MUGGLE_ENDIAN_SWAP_32(v64));
 		printf("%" PRIu64 " %" PRIu64 "\n", r, rt);
+	} else if (strcmp(op, "swapt") == 0 && ntok >= 4) {
+		int n = atoi(tok[1]);
+		const char *ty = tok[2];
+		uint64_t v64 = (uint64_t)strtoull(tok[3], NULL, 10);
+		uint64_t u = 0, w = 0, rt = 0; int64_t s = 0; int done = 0;
+		/* the operand is an lvalue of type T; nothing is cast or stored narrower before the macro sees it */
+#define SWAPT_ONE(N, NAME, T) \
+		if (!done && n == N && strcmp(ty, NAME) == 0) { \
+			T x = (T)v64; \
+			u = MUGGLE_ENDIAN_SWAP_##N(x); \
+			s = MUGGLE_ENDIAN_SWAP_##N(x); \
+			uint##N##_t st = MUGGLE_ENDIAN_SWAP_##N(x); w = st; \
+			rt = MUGGLE_ENDIAN_SWAP_##N(MUGGLE_ENDIAN_SWAP_##N(x)); \
+			done = 1; \
+		}
+#define SWAPT_ALL(N) \
+		SWAPT_ONE(N, "i8", int8_t) SWAPT_ONE(N, "u8", uint8_t) SWAPT_ONE(N, "i16", int16_t) SWAPT_ONE(N, "u16", uint16_t) \
+		SWAPT_ONE(N, "i32", int32_t) SWAPT_ONE(N, "u32", uint32_t) SWAPT_ONE(N, "i64", int64_t) SWAPT_ONE(N, "u64", uint64_t)
+		SWAPT_ALL(16) SWAPT_ALL(32) SWAPT_ALL(64)
+#undef SWAPT_ALL
+#undef SWAPT_ONE
+		if (done) printf("%" PRIu64 " %" PRId64 " %" PRIu64 " %" PRIu64 "\n", u, s, w, rt);
+		else printf("?\n");
 	} else if (strcmp(op, "swap32") == 0 && ntok >= 2) {
 		uint32_t v = (uint32_t)strtoull(tok[1], NULL, 10);
 		uint32_t r = MUGGLE_ENDIAN_SWAP_32(v);
@@ -147,60 +177,89 @@ static void case_line(char *line)
 	            strcmp(op, "toul") == 0 || strcmp(op, "toll") == 0 || strcmp(op, "toull") == 0) && ntok >= 3) {
 		int base = atoi(tok[1]);
 		char *s = dec(tok[2], NULL, 1);
-		char *e = NULL;
+		/* glibc leaves endptr untouched for an invalid base (EINVAL, result 0), and ASan's strtol/strtoll interceptor
+		 * stores its own uninitialised copy there: the end offset of the libc line is only meaningful for a base
+		 * the family accepts; for any other base the line reports offset 0 = "nothing converted" */
+		char *e = s;
 		int ok;
-		if (strcmp(op, "toi") == 0) {
+		int base_ok = base == 0 || (base >= 2 && base <= 36);
+#define END_OFF() (base_ok ? (int)(e - s) : 0)
+		int p0 = ntok >= 4 && strcmp(tok[3], "P0") == 0;
+		if (s == NULL || p0) {
+			/* NULL string and/or NULL out-parameter: the wrapper must refuse; there is no libc call to compare */
+			if (strcmp(op, "toi") == 0) { int v = 12345; ok = muggle_str_toi(s, p0 ? NULL : &v, base); }
+			else if (strcmp(op, "tou") == 0) { unsigned int v = 12345; ok = muggle_str_tou(s, p0 ? NULL : &v, base); }
+			else if (strcmp(op, "tol") == 0) { long v = 12345; ok = muggle_str_tol(s, p0 ? NULL : &v, base); }
+			else if (strcmp(op, "toul") == 0) { unsigned long v = 12345; ok = muggle_str_toul(s, p0 ? NULL : &v, base); }
+			else if (strcmp(op, "toll") == 0) { long long v = 12345; ok = muggle_str_toll(s, p0 ? NULL : &v, base); }
+			else { unsigned long long v = 12345; ok = muggle_str_toull(s, p0 ? NULL : &v, base); }
+			printf("%s\n", ok ? "ok ?" : "fail");
+			printf("libc -\n");
+		} else if (strcmp(op, "toi") == 0) {
 			int v = 12345; ok = muggle_str_toi(s, &v, base);
 			if (ok) printf("ok %d\n", v); else printf("fail\n");
 			errno = 0; long r = strtol(s, &e, base);
-			printf("libc %ld %d %d\n", r, (int)(e - s), errno == ERANGE);
+			printf("libc %ld %d %d\n", r, END_OFF(), errno == ERANGE);
 		} else if (strcmp(op, "tou") == 0) {
 			unsigned int v = 12345; ok = muggle_str_tou(s, &v, base);
 			if (ok) printf("ok %u\n", v); else printf("fail\n");
 			errno = 0; unsigned long r = strtoul(s, &e, base);
-			printf("libc %lu %d %d\n", r, (int)(e - s), errno == ERANGE);
+			printf("libc %lu %d %d\n", r, END_OFF(), errno == ERANGE);
 		} else if (strcmp(op, "tol") == 0) {
 			long v = 12345; ok = muggle_str_tol(s, &v, base);
 			if (ok) printf("ok %ld\n", v); else printf("fail\n");
 			errno = 0; long r = strtol(s, &e, base);
-			printf("libc %ld %d %d\n", r, (int)(e - s), errno == ERANGE);
+			printf("libc %ld %d %d\n", r, END_OFF(), errno == ERANGE);
 		} else if (strcmp(op, "toul") == 0) {
 			unsigned long v = 12345; ok = muggle_str_toul(s, &v, base);
 			if (ok) printf("ok %lu\n", v); else printf("fail\n");
 			errno = 0; unsigned long r = strtoul(s, &e, base);
-			printf("libc %lu %d %d\n", r, (int)(e - s), errno == ERANGE);
+			printf("libc %lu %d %d\n", r, END_OFF(), errno == ERANGE);
 		} else if (strcmp(op, "toll") == 0) {
 			long long v = 12345; ok = muggle_str_toll(s, &v, base);
 			if (ok) printf("ok %lld\n", v); else printf("fail\n");
 			errno = 0; long long r = strtoll(s, &e, base);
-			printf("libc %lld %d %d\n", r, (int)(e - s), errno == ERANGE);
+			printf("libc %lld %d %d\n", r, END_OFF(), errno == ERANGE);
 		} else {
 			unsigned long long v = 12345; ok = muggle_str_toull(s, &v, base);
 			if (ok) printf("ok %llu\n", v); else printf("fail\n");
 			errno = 0; unsigned long long r = strtoull(s, &e, base);
-			printf("libc %llu %d %d\n", r, (int)(e - s), errno == ERANGE);
+			printf("libc %llu %d %d\n", r, END_OFF(), errno == ERANGE);
 		}
+#undef END_OFF
 		free(s);
 	} else if ((strcmp(op, "tof") == 0 || strcmp(op, "tod") == 0 || strcmp(op, "told") == 0) && ntok >= 2) {
 		char *s = dec(tok[1], NULL, 1);
-		char *e = NULL;
-		int ok, same, inf, er;
+		char *e = s;
+		int ok, same = 0, inf = 0, er = 0, zero = 0;
+		int with_zero = ntok >= 6 && strcmp(tok[5], "P0") != 0;
+		int p0 = strcmp(tok[ntok - 1], "P0") == 0;
+		if (s == NULL || p0) {
+			if (strcmp(op, "tof") == 0) { float v = 0; ok = muggle_str_tof(s, p0 ? NULL : &v); }
+			else if (strcmp(op, "tod") == 0) { double v = 0; ok = muggle_str_tod(s, p0 ? NULL : &v); }
+			else { long double v = 0; ok = muggle_str_told(s, p0 ? NULL : &v); }
+			printf("%s\n", ok ? "ok" : "fail");
+			printf("libcf -\n");
+			free(s);
+			return;
+		}
 		if (strcmp(op, "tof") == 0) {
 			float v = 0, r; ok = muggle_str_tof(s, &v);
 			errno = 0; r = strtof(s, &e); er = errno == ERANGE;
-			same = memcmp(&v, &r, sizeof(float)) == 0; inf = isinf(r) ? 1 : 0;
+			same = memcmp(&v, &r, sizeof(float)) == 0; inf = isinf(r) ? 1 : 0; zero = r == 0 ? 1 : 0;
 		} else if (strcmp(op, "tod") == 0) {
 			double v = 0, r; ok = muggle_str_tod(s, &v);
 			errno = 0; r = strtod(s, &e); er = errno == ERANGE;
-			same = memcmp(&v, &r, sizeof(double)) == 0; inf = isinf(r) ? 1 : 0;
+			same = memcmp(&v, &r, sizeof(double)) == 0; inf = isinf(r) ? 1 : 0; zero = r == 0 ? 1 : 0;
 		} else {
 			long double v = 0, r; ok = muggle_str_told(s, &v);
 			errno = 0; r = strtold(s, &e); er = errno == ERANGE;
-			same = memcmp(&v, &r, 10) == 0; inf = isinf(r) ? 1 : 0;
+			same = memcmp(&v, &r, 10) == 0; inf = isinf(r) ? 1 : 0; zero = r == 0 ? 1 : 0;
 		}
 		printf("%s\n", ok ? "ok" : "fail");
 		/* the value muggle stored is compared bit for bit with the libc result */
-		printf("libcf %d %d %d %d\n", (int)(e - s), inf, er, same);
+		if (with_zero) printf("libcf %d %d %d %d %d\n", (int)(e - s), inf, er, zero, same);
+		else printf("libcf %d %d %d %d\n", (int)(e - s), inf, er, same);
 		free(s);
 	} else if (strcmp(op, "lstrip") == 0 && ntok >= 2) {
 		char *s = dec(tok[1], NULL, 1);
